@@ -20,6 +20,7 @@ type rangeCase struct {
 	To      int    `json:"to"`   // 0 = not given
 	Jobs    uint   `json:"jobs"`
 	Corrupt bool   `json:"corrupt_skipped"` // damage the payload of every block outside the range
+	Chunk   int    `json:"source_chunk"`    // 0 = the source hands over whatever is asked; n > 0 = at most n bytes per call (the buffer is refilled inside skipped blocks)
 }
 
 func runRangeCase(c *rangeCase) (kind, detail string, ok bool) {
@@ -77,7 +78,12 @@ func runRangeCase(c *rangeCase) (kind, detail string, ok bool) {
 				rr.Err = &kz.ErrPanic{Val: x}
 			}
 		}()
-		r, err := kio.NewReaderWithCtx(&kz.Source{Data: stream}, ctx)
+		src := &kz.Source{Data: stream}
+		if c.Chunk > 0 {
+			ch := c.Chunk
+			src.Chunk = func(int) int { return ch }
+		}
+		r, err := kio.NewReaderWithCtx(src, ctx)
 		if err != nil {
 			rr.Err = err
 			return
@@ -100,6 +106,7 @@ func runRangeCase(c *rangeCase) (kind, detail string, ok bool) {
 
 func c11(run *core.Run, replay string) {
 	run.SetRule("for streams of 1..12 blocks (partial last block, with/without size hint, block sizes 1024/4096) EVERY range 1 <= from <= to <= nb+3, plus from-only and to-only, is decoded with decoder jobs {1,2,3,4,8,64}; " +
+		"the source delivers the stream at once or in short reads of 7..1021 bytes (refills inside skipped blocks), three streams exceed the 256 KiB input buffer several times; " +
 		"in half of the cases the payload and stored checksum of every block outside the range are corrupted (length prefix intact) so that decoding a skipped block would be noticed; " +
 		"oracle: bytes == orig[(from-1)*B : min((to-1)*B, len)] and no error; non-trivial = range skips at least one block; distinct = (recipe, from, to, jobs, corrupt)")
 	if replay != "" {
@@ -142,13 +149,13 @@ func c11(run *core.Run, replay string) {
 			for to := from; to <= nb+3; to++ {
 				for ji, j := range jobsL {
 					_ = ji
-					cases = append(cases, &rangeCase{recs[ri], from, to, j, (from+to+ji)%2 == 0})
+					cases = append(cases, &rangeCase{recs[ri], from, to, j, (from+to+ji)%2 == 0, []int{0, 0, 1021, 0, 13, 250}[(from*3+to+ji)%6]})
 				}
 			}
 		}
 		for k := 1; k <= nb+2; k++ {
-			cases = append(cases, &rangeCase{recs[ri], k, 0, jobsL[k%6], k%2 == 0})
-			cases = append(cases, &rangeCase{recs[ri], 0, k, jobsL[(k+1)%6], k%2 == 1})
+			cases = append(cases, &rangeCase{recs[ri], k, 0, jobsL[k%6], k%2 == 0, []int{0, 7, 1000}[k%3]})
+			cases = append(cases, &rangeCase{recs[ri], 0, k, jobsL[(k+1)%6], k%2 == 1, []int{0, 1000, 7}[k%3]})
 		}
 	}
 	// streams longer than the saturating block-count hint (63): boundary-focused ranges
@@ -169,10 +176,24 @@ func c11(run *core.Run, replay string) {
 						if !run.Thorough() && (from+to+ji)%2 == 1 {
 							continue
 						}
-						cases = append(cases, &rangeCase{rc, from, to, j, (from+to)%3 == 0})
+						cases = append(cases, &rangeCase{rc, from, to, j, (from+to)%3 == 0, []int{0, 509, 0}[(from+ji)%3]})
 					}
 				}
-				cases = append(cases, &rangeCase{rc, from, 0, uint(1 + from%4), false}, &rangeCase{rc, 0, from, uint(1 + from%3), false})
+				cases = append(cases, &rangeCase{rc, from, 0, uint(1 + from%4), false, 0}, &rangeCase{rc, 0, from, uint(1 + from%3), false, 0})
+			}
+		}
+	}
+	// streams whose compressed size exceeds the 256 KiB input buffer several times: the buffer is refilled in the middle of
+	// skipped blocks and of blocks inside the range (every range; unaligned compressed block lengths)
+	for i, cf := range []kz.Cfg{cfg("NONE", "NONE", 65536, 2, 32), cfg("LZ", "ANS0", 131072, 3, 0), cfg("NONE", "HUFFMAN", 65536, 4, 64)} {
+		nb := []int{14, 9, 12}[i]
+		rc := recipe{fmt.Sprintf("%dblk-large-%s", nb, cf.Entropy), cf, []string{"random", "random", "skewed"}[i], nb*int(cf.BlockSize) - 1000*i - 7, S + int64(200+i)}
+		for from := 1; from <= nb+1; from++ {
+			for to := from; to <= nb+2; to++ {
+				if !run.Thorough() && (from+to+i)%3 != 0 && to != nb+2 {
+					continue
+				}
+				cases = append(cases, &rangeCase{rc, from, to, jobsL[(from+to)%6], false, []int{0, 0, 100000}[(from+to)%3]})
 			}
 		}
 	}
@@ -200,7 +221,10 @@ func c11(run *core.Run, replay string) {
 		B := int(c.R.Cfg.BlockSize)
 		nb := (c.R.Size + B - 1) / B
 		if c.From > 1 || (c.To > 0 && c.To <= nb) {
-			run.Nontrivial(fmt.Sprintf("%s|%d|%d|%d|%v", c.R.Name, c.From, c.To, c.Jobs, c.Corrupt))
+			run.Nontrivial(fmt.Sprintf("%s|%d|%d|%d|%v|%d", c.R.Name, c.From, c.To, c.Jobs, c.Corrupt, c.Chunk))
+			if c.Chunk > 0 {
+				run.Count("cases_with_short_reads_from_the_source", 1)
+			}
 		}
 		if c.Corrupt {
 			run.Count("cases_with_corrupted_skipped_blocks", 1)
